@@ -3,9 +3,9 @@ harness processes (flavour binaries sharing one cache directory), with per-step 
 tree comparison at requested points."""
 import os, shutil, tempfile, time, uuid
 from . import ops as O
-from .procs import ModelProc, ImplProc, BUILD
+from .procs import ModelProc, ImplProc, BUILD, IMPL
 
-SCRATCH = BUILD + "/scratch"
+SCRATCH = IMPL + "/scratch"
 
 class Disagreement(Exception):
     pass
